@@ -263,7 +263,31 @@ def r5_selector_partition(ctx):
         ctx.vanished(f"selector obligations: only {len(sub.obs)}")
 
 
+def r6_candidate_universe(ctx):
+    """The later stage must run on the profile restricted to the finalists: every other REGISTERED candidate is struck,
+    whether or not a ballot ranks it.  Who-may-read rule: outside the profile class itself no election rule, utility or
+    cleaning function reads `candidates_cast` (the candidates that happen to appear on a ballot); the candidate universe
+    is `candidates`.  Decided over every function of those modules, whatever its shape."""
+    prog = ctx.prog
+    n = 0
+    for f in prog.iter_functions(("src/votekit/elections/", "src/votekit/utils.py", "src/votekit/cleaning.py", "src/votekit/models.py")):
+        if isinstance(f.node, ast.Lambda):
+            continue
+        n += 1
+        hits = [x for x in astx.walk_own(f.node) if isinstance(x, ast.Attribute) and x.attr == "candidates_cast" and isinstance(x.ctx, ast.Load)]
+        if hits:
+            ctx.violated(f, hits[0], f"{f.short}: candidate universe read from candidates_cast",
+                         f"`{astx.u(hits[0])}`: a registered candidate that no ballot ranks is not in candidates_cast, so it is neither struck nor scored "
+                         "(the profile handed to the next stage keeps it)")
+    ctx.ok(None, None, "no election rule / utility reads candidates_cast", f"{n} functions examined")
+    # positive example: the matcher must see the attribute read
+    fx = ast.parse("def g(profile):\n    return [c for c in profile.candidates_cast]\n").body[0]
+    if not [x for x in ast.walk(fx) if isinstance(x, ast.Attribute) and x.attr == "candidates_cast"]:
+        ctx.undecided(None, None, "candidates_cast matcher fixture", "matcher failed on the embedded positive example")
+
+
 RULES = [
+    ("C13.R6", r6_candidate_universe, 1, "who-may-read: election code takes the candidate universe from `candidates`, never from `candidates_cast`"),
     ("C13.R1", r1_aliases, 10, "IRV / SNTV / SequentialRCV are thin constructor-only subclasses with the documented arguments"),
     ("C13.R2", r2_toptwo, 5, "TopTwo: Plurality(2) role mapping, then Plurality(1) runoff renumbered 2"),
     ("C13.R4", r4_argument_order, 1, "no call binds an argument to a differently named parameter while a same-named parameter exists (package-wide)"),
@@ -297,4 +321,10 @@ BENIGN = [
     ("IRV positional m", [(STV, "super().__init__(profile, m=1, quota=quota, tiebreak=tiebreak)", "super().__init__(profile, 1, quota=quota, tiebreak=tiebreak)")]),
     ("Alaska keywords", [(AK, "            stv = STV(\n                profile,\n                self.m_2,\n                self.transfer,\n                self.quota,\n                self.simultaneous,\n                self.tiebreak,\n            )\n            new_profile",
                           "            stv = STV(\n                profile,\n                m=self.m_2,\n                transfer=self.transfer,\n                tiebreak=self.tiebreak,\n                quota=self.quota,\n                simultaneous=self.simultaneous,\n            )\n            new_profile")]),
+]
+
+AL_PY = "src/votekit/elections/election_types/ranking/alaska.py"
+FAULTS += [
+    ("cut taken from the candidates that were cast", [(AL_PY, "new_profile = remove_cand([c for s in eliminated for c in s], profile)",
+                                                     "new_profile = remove_cand([c for c in profile.candidates_cast if c not in [x for s in remaining for x in s]], profile)")], "C13.R"),
 ]
